@@ -309,8 +309,17 @@ func (dr *dirRepo) BlobGet(d digest.Digest) (io.ReadSeekCloser, error) {
 	return dr.blobGet(d, false)
 }
 
+// existsGet returns the exists field, acquiring the lock unless the caller already holds it.
+func (dr *dirRepo) existsGet(locked bool) bool {
+	if !locked {
+		dr.mu.Lock()
+		defer dr.mu.Unlock()
+	}
+	return dr.exists
+}
+
 func (dr *dirRepo) blobGet(d digest.Digest, locked bool) (io.ReadSeekCloser, error) {
-	if !dr.exists {
+	if !dr.existsGet(locked) {
 		return nil, fmt.Errorf("repo does not exist %s: %w", dr.name, types.ErrNotFound)
 	}
 	if err := d.Validate(); err != nil {
@@ -329,7 +338,7 @@ func (dr *dirRepo) blobGet(d digest.Digest, locked bool) (io.ReadSeekCloser, err
 // blobMeta returns metadata on a blob.
 func (dr *dirRepo) blobMeta(d digest.Digest, locked bool) (blobMeta, error) {
 	m := blobMeta{}
-	if !dr.exists {
+	if !dr.existsGet(locked) {
 		return m, fmt.Errorf("repo does not exist %s: %w", dr.name, types.ErrNotFound)
 	}
 
@@ -361,7 +370,7 @@ func (dr *dirRepo) BlobCreate(opts ...BlobOpt) (BlobCreator, string, error) {
 			return nil, "", err
 		}
 	}
-	if !dr.exists {
+	if !dr.existsGet(false) {
 		err := dr.repoInit(false)
 		if err != nil {
 			return nil, "", err
@@ -435,7 +444,7 @@ func (dr *dirRepo) blobDelete(d digest.Digest, locked bool) error {
 	if *dr.conf.Storage.ReadOnly {
 		return types.ErrReadOnly
 	}
-	if !dr.exists {
+	if !dr.existsGet(locked) {
 		return fmt.Errorf("repo does not exist %s: %w", dr.name, types.ErrNotFound)
 	}
 	if err := d.Validate(); err != nil {
